@@ -3,7 +3,7 @@
 From Coq Require Import ZArith List Bool Sorted.
 From Bluge Require Import Base.Res Base.Corr Base.UTF8 Gen.ParamsAnalysis
   Analysis.Pipeline Analysis.PipelineProofs Analysis.Tokenizers Analysis.TokenizersProofs
-  Analysis.Filters Analysis.FiltersProofs Analysis.Freq Analysis.FreqProofs Analysis.ExamplesProofs.
+  Analysis.Filters Analysis.FiltersProofs Analysis.ShingleProofs Analysis.Freq Analysis.FreqProofs Analysis.ExamplesProofs.
 Import ListNotations.
 Open Scope Z_scope.
 
@@ -118,6 +118,69 @@ Print Assumptions apostrophe_preserves.
 Theorem elision_preserves : forall L (is_article : list Z -> bool) ts, tok_ok L ts -> tok_ok L (elision_filter is_article ts).
 Proof. exact elision_preserves_all. Qed.
 Print Assumptions elision_preserves.
+
+(* ---------- token filters: total on their parameter ranges, on every byte string ---------- *)
+
+Theorem ngram_total : forall mn mx, 0 <= mn -> total_filter (ngram_filter mn mx).
+Proof. exact ngram_total_all. Qed.
+Print Assumptions ngram_total.
+
+Theorem edge_ngram_total : forall back mn mx, 0 <= mn -> total_filter (edge_filter back mn mx).
+Proof. exact edge_total_all. Qed.
+Print Assumptions edge_ngram_total.
+
+(* outside the parameter range: a negative minimum slices runes[i:i+n] with n < 0 *)
+Theorem ngram_negative_min_refuted : exists mn mx ts, ngram_filter mn mx ts = Panic 3.
+Proof. exact ngram_negative_panics. Qed.
+Print Assumptions ngram_negative_min_refuted.
+
+(* lowercase.go returns for every lower-casing table that maps into valid runes (as
+   unicode.ToLower does): the in-place writes never run out of room, the loop ends *)
+Theorem lowercase_total : forall lower : Z -> Z,
+  (forall r, valid_rune (lower r) = true) -> total_filter (lowercase_filter lower).
+Proof. exact lowercase_total_all. Qed.
+Print Assumptions lowercase_total.
+
+(* what it computes when a replacement is narrower than the original (Kelvin sign -> k):
+   "\xe2\x84\xaael" becomes "k\x84\xaa", the unchanged runes that follow are not moved down *)
+Example lowercase_stale_bytes_example :
+  lower_term (fun r => if r =? 8490 then 107 else r) [226; 132; 170; 101; 108] = Ok [107; 132; 170].
+Proof. exact lowercase_stale_bytes. Qed.
+Print Assumptions lowercase_stale_bytes_example.
+
+(* reverse.go as pinned (fixed = false: rune widths from utf8.RuneLen of the decoded rune)
+   panics on an invalid byte; the repaired line (fixed = true) returns on the same input *)
+Theorem reverse_pinned_refuted : exists (is_mark : Z -> bool) ts, reverse_filter false is_mark ts = Panic 4.
+Proof. exact reverse_pinned_panics. Qed.
+Print Assumptions reverse_pinned_refuted.
+
+Example reverse_fixed_example :
+  reverse_filter true (fun _ => false) [Tk 0 3 [97; 255; 98] 1 0 false] = Ok [Tk 0 3 [98; 255; 97] 1 0 false].
+Proof. exact reverse_fixed_witness. Qed.
+Print Assumptions reverse_fixed_example.
+
+(* shingle.go: the contract is preserved on streams whose offsets are in text order (every
+   bundled tokenizer emits such streams), for every min, max, separator and filler ... *)
+Theorem shingle_preserves : forall L mn mx oo sep fill ts out,
+  tok_ok L ts -> ordered ts -> shingle_filter mn mx oo sep fill ts = Ok out -> tok_ok L out.
+Proof. exact shingle_preserves_ordered_all. Qed.
+Print Assumptions shingle_preserves.
+
+Theorem shingle_total : forall mn mx oo sep fill, 0 < mx -> total_filter (shingle_filter mn mx oo sep fill).
+Proof. exact shingle_total_all. Qed.
+Print Assumptions shingle_total.
+
+(* ... and NOT from tok_ok alone (full statement: forall ts, tok_ok L ts -> tok_ok L (shingle ts)):
+   two tokens whose offsets run backwards give a shingle with start 5 > end 2 *)
+Theorem shingle_preserves_refuted :
+  exists L mn mx oo sep fill ts out,
+    tok_ok L ts /\ shingle_filter mn mx oo sep fill ts = Ok out /\ ~ tok_ok L out.
+Proof. exact shingle_unordered_refuted. Qed.
+Print Assumptions shingle_preserves_refuted.
+
+Theorem shingle_max_zero_refuted : exists mn mx oo sep fill ts, shingle_filter mn mx oo sep fill ts = Panic 5.
+Proof. exact shingle_max_zero_panics. Qed.
+Print Assumptions shingle_max_zero_refuted.
 
 (* the filters that drop tokens carry the increments over: every surviving token keeps the
    absolute position it had (PositionIncr is not lost) *)
